@@ -84,6 +84,11 @@ CHECKS = {
     text="numpy-free libraries (scalars of all native types, bool, char*/std::string in/out/result, list-mode arrays in/out/inout, overloads, default arguments, function templates, classes) for language c and c++: every function is called with every split into positional prefix + keywords (all keyword orders up to 3), every default arity, battery values; negative calls (wrong arity, each argument replaced by every other type class, unknown keyword, duplicate positional+keyword, no-match on overloaded names) must raise TypeError/ValueError and must not reach the library; sys.getrefcount of fresh argument objects must not drift over 2000 calls on the success and on the failure path; classes are followed through constructor (positional and keyword), methods, static methods and del with object serials. ~2.4k operations quick, ~4.7k thorough.",
     note="Trusted: reference model, documented Python API (result followed by out/inout arguments), CPython 3.12. Not covered: numpy mode (no numpy in the sandbox), size_t values above SSIZE_MAX ('n' unit), keyword calls that skip an earlier defaulted argument (documented as unsupported).",
     design="DESIGN.md §2 C03"),
+ "C18": dict(
+    technique="generated Lua binding compiled with ASan+UBSan against minilua (a reference emulator of the Lua 5.3 C API surface the emitter uses), linked with an instrumented subject library and driven by a synthesised C driver that builds argument stacks; library trace and results left on the stack compared with a reference model",
+    text="Libraries of the Lua-capable shapes (scalars of all native types, bool, std::string in / result, overloads, default arguments with/without suffixes, classes with constructors, methods and __gc) for language c and c++: matching stacks with the value battery must reach the selected entry point with the same values and leave the library's result and count; non-matching stacks (wrong count, each slot replaced by other Lua types) must raise a Lua error; objects are followed by serial through construction, methods and collection, and the live-object count must be zero after close. ~1k stacks quick, ~3.4k thorough.",
+    note="TRUSTED BASE: native/minilua/minilua.c stands in for the interpreter (no Lua runtime or headers can be installed here); the binding itself is the real generated code running under ASan. Five known findings (no argument checking outside overload dispatch; method argument indices) are listed.",
+    design="DESIGN.md §2 C18"),
 }
 
 NOT_APPLICABLE = []
